@@ -1,6 +1,7 @@
 import CwPlus.Lemmas.Ics20
 import CwPlus.Lemmas.Ics20Migrate
 import CwPlus.Lemmas.Ics20Env
+import CwPlus.Lemmas.Ics20TotalSent
 /-!
 # C11 — cw20-ics20: escrow always covers outstanding vouchers, channel by channel
 
@@ -46,6 +47,18 @@ theorem paidOut_le_escrowed (w : World) (ops : List (Block × Op)) (c : String) 
     (runG (w, Ghost.init w) ops).2.paidOut (c, d) ≤ (runG (w, Ghost.init w) ops).2.sent (c, d) := by
   have := channel_ledger w ops c d
   omega
+
+/-- **C11, channel_ledger / paidOut ≤ escrowed with packets in flight at the start**: the same for a start
+state that already has packets in flight (`fl`: sent by an earlier history, e.g. under the old code before
+a migration; `admissible` lets one acknowledgement or timeout through for each): what a migration books
+as outstanding counts as escrowed, and refunds of those packets are covered too. -/
+theorem channel_ledger_inflight (w : World) (fl : List (String × Packet)) (ops : List (Block × Op)) (c : String) (d : Denom) :
+    outstanding (runG (w, Ghost.initWith w fl) ops).1.st c d + (runG (w, Ghost.initWith w fl) ops).2.paidOut (c, d)
+      + (runG (w, Ghost.initWith w fl) ops).2.swallowed (c, d) = (runG (w, Ghost.initWith w fl) ops).2.sent (c, d) ∧
+    (runG (w, Ghost.initWith w fl) ops).2.paidOut (c, d) ≤ (runG (w, Ghost.initWith w fl) ops).2.sent (c, d) := by
+  have h := runG_ledger ops (ledgerInv_initWith w fl)
+  have h1 := h.1 (c, d); have h2 := h.2 (c, d)
+  rw [outstanding_eq]; omega
 
 /-! ## Solvency -/
 
